@@ -5,6 +5,7 @@ report (true sheet title + A1 address -> fragments) is known without re-implemen
 import datetime as dt
 
 from openpyxl.utils import get_column_letter
+from openpyxl.worksheet.formula import ArrayFormula
 
 from .. import pipeline, wbspec
 from ..findings import report
@@ -74,6 +75,9 @@ def make_workbook(rng, n_susp, n_inn):
     for _ in range(n_susp):
         s, row, col = place()
         text, frags = make_suspicious(rng, rng.random() < 0.3)
+        if text.startswith('=') and rng.random() < 0.4:
+            # the same formula text entered as an array formula: openpyxl hands it over as an object carrying the text
+            text = ArrayFormula(wbspec.a1(row, col), text)
         sheets[s][wbspec.a1(row, col)] = text
         planted[(s, row, col)] = frags
     # the same suspicious text again: in the same row, in the same column, at the same address of another sheet
@@ -101,7 +105,14 @@ def make_workbook(rng, n_susp, n_inn):
         sheets[s][wbspec.a1(row, col)] = rng.choice(INNOCENT)
     for s in range(ns):
         sheets[s].setdefault('A1', 1)
-    spec = wbspec.spec(*[wbspec.sheet(t, c) for t, c in zip(titles, sheets)])
+    order = [wbspec.sheet(t, c) for t, c in zip(titles, sheets)]
+    # chart tabs between the worksheets (a tab without cells: it must not shift the titles the report names) and hidden worksheets
+    for i in range(rng.choice([0, 0, 1, 1, 2])):
+        order.insert(rng.randrange(1, len(order) + 1), wbspec.sheet(f'Diagram{i}', chart=True))
+    for sh in order[1:]:
+        if not sh.get('chart') and rng.random() < 0.15:
+            sh['state'] = rng.choice(['hidden', 'veryHidden'])
+    spec = wbspec.spec(*order)
     expected = {f"'{titles[s]}'{get_column_letter(col)}{row}": frags for (s, row, col), frags in planted.items()}
     return spec, expected, planted, clones
 
